@@ -182,6 +182,16 @@ def check(case):
                             fail("delete-then-attribute-assignment-datatype:%s-instead-of-%s" % (l.get_datatype(tagname), dt), repr(value))
                     except gfapy.Error as e:
                         fail("attribute-assignment-after-delete-raises-%s:%s" % (type(e).__name__, dt), harness.short(e, 120))
+                    # a tag removed by assigning None is gone with its datatype: a value of another kind then makes a new tag
+                    try:
+                        l.set(tagname, None)
+                        other, odt, otext = ("s", "Z", "s") if not isinstance(value, str) else (7, "i", "7")
+                        l.set(tagname, other)
+                        f2 = [x for x in str(l).split("\t") if x.startswith(tagname + ":")]
+                        if f2 != ["%s:%s:%s" % (tagname, odt, otext)]:
+                            fail("none-then-new-value-keeps-old-datatype:%s" % dt, "%r then %r written %r" % (value, other, f2))
+                    except gfapy.Error as e:
+                        fail("set-after-none-raises-%s:%s" % (type(e).__name__, dt), harness.short(e, 120))
         elif valid is False:
             if reported is None and vrep is None:
                 fail("unrepresentable-value-not-reported:%s" % dt, "%r written as %r" % (value, text))
